@@ -5,7 +5,28 @@
    Hence "the model returns Ok" = "the call never read stale scratch memory, never indexed out of range",
    and the correspondence run drives the implementation with clean, 0x7fff-filled and history-polluted slabs. *)
 From Fzf Require Import Prelude AlgoSpec AlgoModel AlgoBasics PrefilterProofs V1Proofs OccursBasics AnchoredProofs ExactProofs.
+From Fzf Require Import V2Final.
 Open Scope Z_scope.
+
+(* FuzzyMatchV2 never reads a scratch cell that was not written in the current call (such a read is an error in
+   the model) and never indexes out of range — for every text, pattern, flag combination and scratch capacity.
+   So whatever earlier calls left in the slab cannot influence match, range, score or positions. *)
+Theorem v2_never_reads_stale_memory : forall co sc cs nm fwd ib text pat wp cap,
+  0 <= s_bw sc /\ 0 <= s_bd sc -> (ib = true -> Forall (fun c => 0 <= c < 128) text) ->
+  (forall c, c < 192 -> co_norm co c = c) ->
+  exists r, fuzzy_v2 co sc cs nm fwd ib text pat wp cap = Ok r.
+Proof. exact v2_total_final. Qed.
+Print Assumptions v2_never_reads_stale_memory.
+
+(* requesting positions changes neither match / no-match nor End nor Score of FuzzyMatchV2 (Start may differ:
+   known finding K1, sort keys never read it) *)
+Theorem v2_withpos_indep : forall co sc cs nm fwd ib text pat cap,
+  0 <= s_bw sc /\ 0 <= s_bd sc -> (ib = true -> Forall (fun c => 0 <= c < 128) text) ->
+  (forall c, c < 192 -> co_norm co c = c) ->
+  end_score (fuzzy_v2 co sc cs nm fwd ib text pat true cap) = end_score (fuzzy_v2 co sc cs nm fwd ib text pat false cap) /\
+  end_score (fuzzy_v2 co sc cs nm fwd ib text pat true cap) <> None.
+Proof. exact v2_withpos_indep_final. Qed.
+Print Assumptions v2_withpos_indep.
 
 (* requesting positions does not change match / range / score of FuzzyMatchV1 *)
 Theorem v1_withpos_indep : forall co sc cs nm fwd ib text pat,
